@@ -1,10 +1,9 @@
 SPECIFICATION Spec
 CONSTANTS
-  MaxOps = 3
-  Deviations = {}
+  MaxOps = 4
+  Deviations = {"NewSimReusesWeights"}
 INVARIANT TypeOK
 INVARIANT NeverHalved
-INVARIANT SimMisfitFollowsNoise
 INVARIANT NewSimFollowsNoise
 PROPERTY OnlyAssignmentsChangeNoise
 PROPERTY SelectIsSubcube
